@@ -581,6 +581,12 @@ package tengo
 //@   mode assumed needs the instruction-stream well-formedness predicate
 //@   assigns insts[*]
 
+// the module name of an immutable map is a function of the map alone (its "__module_name__" entry)
+//@ func inferModuleName
+//@   props C12
+//@   pure
+//@   assigns nothing
+
 //@ func (*Bytecode).RemoveDuplicates
 //@   props C12 C02
 //@   requires kinds: forall i in 0..len(b.Constants) :: is(b.Constants[i], *CompiledFunction) || is(b.Constants[i], *ImmutableMap)
@@ -603,7 +609,17 @@ package tengo
 //@   loop 0 invariant chars_rng{C02,C12}: forall k rune :: haskey(chars, k) ==> 0 <= chars[k] && chars[k] < len(deduped)
 //@                     && is(deduped[chars[k]], *Char) && deduped[chars[k]].(*Char).Value == k
 //@   loop 0 invariant mods_rng{C02,C12}: forall k string :: haskey(immutableMaps, k) ==> 0 <= immutableMaps[k] && immutableMaps[k] < len(deduped)
-//@                     && is(deduped[immutableMaps[k]], *ImmutableMap)
+//@                     && is(deduped[immutableMaps[k]], *ImmutableMap) && purecall(inferModuleName, deduped[immutableMaps[k]].(*ImmutableMap)) == k
+// every old constant is mapped to a constant with the same payload: the same object (functions, un-named
+// maps), the same module name (builtin modules), or the same scalar value
+//@   loop 0 invariant same_payload{C12}: forall i in 0..rangeindex+1 ::
+//@                     (is(old(consts[i]), *CompiledFunction) ==> same(deduped[indexMap[i]], old(consts[i])))
+//@                     && (is(old(consts[i]), *ImmutableMap) ==> same(deduped[indexMap[i]], old(consts[i]))
+//@                           || (purecall(inferModuleName, old(consts[i]).(*ImmutableMap)) != ""
+//@                               && purecall(inferModuleName, deduped[indexMap[i]].(*ImmutableMap)) == purecall(inferModuleName, old(consts[i]).(*ImmutableMap))))
+//@                     && (is(old(consts[i]), *Int) ==> deduped[indexMap[i]].(*Int).Value == old(consts[i].(*Int).Value))
+//@                     && (is(old(consts[i]), *String) ==> deduped[indexMap[i]].(*String).Value == old(consts[i].(*String).Value))
+//@                     && (is(old(consts[i]), *Char) ==> deduped[indexMap[i]].(*Char).Value == old(consts[i].(*Char).Value))
 
 // ---------------------------------------------------------------------------
 // symbol table (frames by object type: symbol tables own SymbolTable / Symbol
